@@ -76,7 +76,7 @@ PROPS = {
                      "Goat.C13B.handleVote_inv", "Goat.C13B.handleEvidence_inv", "Goat.C13B.processRequests_inv", "Goat.C13B.beginBlock_inv", "Goat.C13B.blockStep_tr",
                      "Goat.C13B.between_R", "Goat.C13B.sync_chain", "Goat.C13B.endBlockers_never_fail", "Goat.C13B.start_of_genesis", "Goat.C13B.sync_chain_genesis",
                      "Goat.C13B.jail_negative_endBlocker_fails"],
-        "streams": [{"name": "locking", "quick": 2500, "thorough": 40000, "seeds": 16}],
+        "streams": [{"name": "locking", "quick": 2500, "thorough": 40000, "seeds": 16}, {"name": "app-export", "quick": 700, "thorough": 4000, "seeds": 8}],
         "assumptions": ["vote infos and evidence name validators known to the module (they were reported to CometBFT by it)",
                         "the genesis state is an import of a well-formed genesis (C13B.start_of_genesis); from there the invariant is proved for every operation of every block (C13B.*_inv, between_R), so no hypothesis on votes, evidence or requests remains",
                         "downtime jail duration >= 0 (Params.Validate demands >= 1 minute)",
